@@ -465,6 +465,9 @@ size_t varintAdaptiveDecode(const uint8_t *src, uint64_t *values,
     case VARINT_ADAPTIVE_PFOR: {
         varintPFORMeta pforMeta;
         varintPFORReadMeta(data, &pforMeta);
+        if (pforMeta.count > maxCount) {
+            break; /* Not enough space in output buffer */
+        }
         decoded = varintPFORDecode(data, values, &pforMeta);
 
         if (meta) {
@@ -486,7 +489,8 @@ size_t varintAdaptiveDecode(const uint8_t *src, uint64_t *values,
             /* Extract values from bitmap */
             size_t allocSize;
             uint16_t *shortValues = NULL;
-            if (!size_mul_overflow(maxCount, sizeof(uint16_t), &allocSize)) {
+            if (varintBitmapCardinality(vb) <= maxCount &&
+                !size_mul_overflow(maxCount, sizeof(uint16_t), &allocSize)) {
                 shortValues = malloc(allocSize);
             }
 
